@@ -23,6 +23,7 @@ eachIngestFeature / ModifiedTags.EachModifiedTag (unchanged code)               
 `watch` says whether an idle worker also selects on the context.  Items are `0 … n-1` in the order the producer
 sends them; `fails k` = the callback fails on item `k`.  `FeedOld` is `MemoryFeatureSource.Read` before the fix.
 History variables: `failed`, `calls`, `late` (items received by a worker after the producer saw the cancellation).
+With `ext = true` the environment may cancel the context at any step (the caller's `ctx` of `Read`).
 -/
 namespace B6.Model.Proto.Feed
 open B6.Model.Proto
@@ -32,6 +33,9 @@ structure Cfg where
   n : Nat
   fails : Nat → Bool
   watch : Bool
+  /-- may the environment cancel the caller's context (at any step)?  `MemoryFeatureSource.Read` derives its context
+  from one the caller passes in; the errgroup functions use `context.Background()`. -/
+  ext : Bool := false
 
 inductive W where
   | idle                 -- blocked in the receive / select
@@ -84,6 +88,7 @@ def step (c : Cfg) (s : St) : List St :=
     ++ guard (inLoop c s ∧ s.cancelled = true) { s with stopped := true }                                    -- select: Done arm
     ++ guard (s.closed = false ∧ ¬ inLoop c s) { s with closed := true }
     ++ guard (s.closed = true ∧ allExited s) { s with ret := some s.cause }
+    ++ guard (c.ext = true ∧ s.cancelled = false) { s with cancelled := true }                               -- environment: the caller cancels
     ++ forWorkers s.ws (workerStep c s)
 
 def terminal (s : St) : Bool := s.ret.isSome
